@@ -1008,6 +1008,7 @@ type c06Gen struct {
 	contents []string
 	names    []string
 	symbols  []string
+	last     string // the text pattern (regexp source) of the previous text atom
 }
 
 func newC06Gen(g kit.G, c *kit.Corpus) *c06Gen {
@@ -1183,6 +1184,9 @@ func (x *c06Gen) fileRegexp() string {
 // renderText renders a value (a regular expression source) as quoted or
 // unquoted text after the given field prefix.
 func (x *c06Gen) renderText(prefix, re string) string {
+	if prefix == "" || prefix == "c:" || prefix == "content:" || prefix == "regex:" || prefix == "f:" || prefix == "file:" {
+		x.last = re
+	}
 	needQuote := re == "or" || strings.ContainsAny(re, "\t\n")
 	unq := strings.NewReplacer(" ", `\ `, `"`, `\"`).Replace(re)
 	if prefix == "" {
@@ -1229,6 +1233,11 @@ func (x *c06Gen) renderText(prefix, re string) string {
 func (x *c06Gen) alias(label string, forms ...string) string { return c06Pick(x.u, forms, label) }
 
 func (x *c06Gen) atom() string {
+	if x.last != "" && x.u.pct(8, "samepat") {
+		// the previous text pattern once more under another (or the same)
+		// field: equal-looking operands that mean different things
+		return x.renderText(c06Pick(x.u, []string{"", "c:", "content:", "regex:", "f:", "file:"}, "sameprefix"), x.last)
+	}
 	switch x.weighted("atom", 30, 14, 5, 13, 6, 7, 7, 6, 7, 5) {
 	case 0: // bare pattern
 		if x.u.pct(35, "re") {
